@@ -8,12 +8,13 @@ POOL = [["1", "ab"], ["2", "c"], ["x", "ab"], ["3"], ["1", "zz"], ["4", "toolong
 
 def cid_for(fmt, header):
     from cutplace import interface
+    if fmt == "delimited-escape": return interface.create_cid_from_string("d,format,delimited\nd,header,%d\nd,escape character,\\\nf,id,,,1...3,Integer\nf,name,,x,...3\nc,u,IsUnique,id\n" % header)
     if fmt == "delimited": return interface.create_cid_from_string("d,format,delimited\nd,header,%d\nf,id,,,1...3,Integer\nf,name,,x,...3\nc,u,IsUnique,id\n" % header)
     return interface.create_cid_from_string("d,format,fixed\nd,header,%d\nd,line delimiter,lf\nf,id,,,3,Integer\nf,name,,x,3\nc,u,IsUnique,id\n" % header)
 
 
 def render(fmt, rows):
-    if fmt == "delimited": return "".join(",".join(r) + "\n" for r in rows)
+    if fmt.startswith("delimited"): return "".join(",".join(r) + "\n" for r in rows)
     return "".join("".join(c.ljust(3)[:3] for c in (r + ["", ""])[:2]) + "\n" for r in rows)
 
 
@@ -46,12 +47,13 @@ def unit_modes_sweep():
                     for n in range(0, 4):
                         for cut in range(0, n + 1):
                             yield (fmt, header, [POOL[i % 2] for i in range(n)], cut)
+                            if fmt == "delimited": yield ("delimited-escape", header, [POOL[i % 2] for i in range(n)], cut)      # the same with a backslash as escape character
         def check(c):
             fmt, header, rows, fault_at = c
             text = render(fmt, rows)
             if fault_at is not None:
                 lines = text.splitlines(keepends=True)
-                broken = '7,"unterminated\n' if fmt == "delimited" else "9\n"          # unterminated quote / short fixed record
+                broken = '7,"unterminated\n' if fmt.startswith("delimited") else "9\n"          # unterminated quote / short fixed record
                 text = "".join(lines[:fault_at]) + broken + "".join(lines[fault_at:])
             y, ystop, ycnt = run_mode(fmt, header, text, "yield")
             c_, cstop, ccnt = run_mode(fmt, header, text, "continue")
